@@ -599,7 +599,10 @@ def eval_cum(ss, func, k, direction, a, b, res, change=None, method=False, defau
     try:
         c = change if change is not None else getattr(ir, func)(x, -k)
         csnap = snapshot(c)
-        if default_span:
+        if default_span and direction == "backward":
+            span = D.Span(None, None, -1)           # fully open backward span = the whole reconstructable range
+            out = getattr(ir, "cum_" + func)(c, -k, x, span)
+        elif default_span:
             out = getattr(ir, "cum_" + func)(c, -k, x)
         else:
             span = (mk(freq, a) >> mk(freq, b)) if direction == "forward" else D.Span(mk(freq, b), mk(freq, a), -1)
@@ -651,7 +654,9 @@ def eval_cum(ss, func, k, direction, a, b, res, change=None, method=False, defau
     if method:
         c2 = c.copy()
         try:
-            if default_span:
+            if default_span and direction == "backward":
+                r = getattr(c2, "cum_" + func)(shift=-k, initial=x, span=span)
+            elif default_span:
                 r = getattr(c2, "cum_" + func)(shift=-k, initial=x)
             else:
                 r = getattr(c2, "cum_" + func)(shift=-k, initial=x, span=span)
@@ -699,6 +704,14 @@ def cum_all_spans(ss, funcs, shifts, res):
                     full = (a == s0 and b == e0 - k) or (a == b)
                     if eval_cum(ss, func, k, "backward", a, b, res, change=c, method=full):
                         c = fresh_change()
+                    if a == s0 and b == e0 - k:
+                        # the default (fully open) backward span: from the end to the start of the change series
+                        # as stored (its own first and last available observation), both moved by the shift
+                        cm = to_map(ss.freq, c)
+                        if cm:
+                            a_def, b_def = min(t for (t, _) in cm) - k, max(t for (t, _) in cm) - k
+                            if a_def <= b_def and eval_cum(ss, func, k, "backward", a_def, b_def, res, change=c, method=False, default_span=True):
+                                c = fresh_change()
 
 
 def shard_cum(item, res, ctx):
